@@ -120,4 +120,29 @@ theorem boundary_own (env : Env) (T : LbTables) (h : env.opps = ownOpps T) (s : 
   rw [h] at ho'
   exact ownOpps_boundary T s o' ho'
 
+
+/-- restart invariance holds for the compiled table (2 332 entries, checked by the kernel) -/
+theorem lbTables_restart : RestartFacts lbTables 53 44 where
+  inv := by unfold RestartInv; decide +kernel
+  stay := by decide +kernel
+  clsLt := lbTables_clsLt
+  sot := by decide +kernel
+
+/-- **a part of a line between two reported opportunities (or the ends), analysed on its own, has
+    exactly the inner opportunities it had inside the line** — for the compiled table -/
+theorem ownOpps_part (A : Text) (c : Char) (l B : Text)
+    (hA : A = [] ∨ blen A ∈ ownOpps lbTables (A ++ (c :: l) ++ B)) (o : Nat)
+    (h0 : 0 < o) (h1 : o < blen (c :: l)) :
+    blen A + o ∈ ownOpps lbTables (A ++ (c :: l) ++ B) ↔ o ∈ ownOpps lbTables (c :: l) := by
+  rcases hA with rfl | hA
+  · simp only [List.nil_append, blen, Nat.zero_add]
+    exact ownOpps_prefix lbTables (c :: l) B o h1
+  · rw [List.append_assoc] at hA ⊢
+    have e : (c :: l) ++ B = c :: (l ++ B) := rfl
+    rw [e] at hA ⊢
+    rw [ownOpps_restart lbTables lbTables_restart A c (l ++ B) hA (blen A + o) (by omega)]
+    have e2 : blen A + o - blen A = o := by omega
+    rw [e2, ← e]
+    exact ownOpps_prefix lbTables (c :: l) B o h1
+
 end TW
